@@ -645,6 +645,10 @@ func (env *specEnv) evalCall(x *SCall) TV {
 			st = env.st
 		}
 		return TV{T: fmt.Sprintf("(and (> %s 0) (< %s %s))", refOf(a), refOf(a), st.alloc), Sort: "Bool"}
+	case "live": // live(r): exists now (allocated in the current state)
+		argn(1)
+		a := env.eval(x.Args[0])
+		return TV{T: fmt.Sprintf("(and (> %s 0) (< %s %s))", refOf(a), refOf(a), env.st.alloc), Sort: "Bool"}
 	case "local": // local(x): the slice or map x has not become reachable from the heap or a callee
 		argn(1)
 		a := env.eval(x.Args[0])
